@@ -142,21 +142,14 @@ fn run(ctx: &mut Ctx) {
     let all = all_targets();
     let fam = family();
     let ovl = ovl_family();
+    let opt = optional_family();
     let cfgs = SerCfg::all();
     let mut r = ctx.rng(14);
     let mut mloc = super::c07::Local::default();
-    let n = ctx.scaled(t.pick(15_000, 400_000)) / ctx.nshards as u64;
+    let n = ctx.scaled(t.pick(80_000, 800_000)) / ctx.nshards as u64;
     let mut prev = String::from("<s_inner a_id=\"1\"><t_v>v</t_v></s_inner>");
     'outer: for k in 0..n {
-        let (own, doc) = if r.chance(1, 5) {
-            let i = r.below(ovl.len());
-            let v = (ovl[i].1)(&mut r, 3);
-            (fam.len() + i, v.ser(&SerCfg::plain()).unwrap_or_default())
-        } else {
-            let i = r.below(fam.len());
-            let v = (fam[i].gen.unwrap())(&mut r);
-            (i, v.ser(&cfgs[r.below(cfgs.len())]).unwrap_or_default())
-        };
+        let (own, doc) = super::c07::base_doc(&mut r, &fam, &ovl, &opt, &cfgs);
         loc.valid += 1;
         if !run_doc(ctx, &mut loc, &all, &doc, own, &mut r) {
             break 'outer;
